@@ -8,3 +8,5 @@ INVARIANT EveryLevelProbed
 INVARIANT Export
 INVARIANT OwnTasksOnly
 INVARIANT IdleBetweenComputations
+INVARIANT RetrievalsGlued
+INVARIANT AllRetrieved
